@@ -163,7 +163,12 @@ class VTask(Task):
         if kind == "jump":
             done = int(stage.context.get("_jump_count", 0) or 0)
             rec["counter"] = done
-            if beh.get("by_iter"):
+            if beh.get("to_seq"):
+                # a controller that jumps to a different target on each of its own iterations, then finishes
+                go = rec["iter"] < len(beh["to_seq"])
+                if go:
+                    beh = dict(beh, to=beh["to_seq"][rec["iter"]])
+            elif beh.get("by_iter"):
                 # decided by the stage's own iteration (number of times it was re-armed), independent of the
                 # engine's _jump_count bookkeeping (which a jump also copies into its target stage)
                 go = rec["iter"] < int(beh.get("times", 1))
